@@ -161,10 +161,16 @@ class Builder:
         it = None
         path = [p.strip() for p in sel.split(" / ")]
         for k, p in enumerate(path):
+            want = None
+            mi = re.match(r"^(.*)#(\d+)$", p)
+            if mi:
+                p, want = mi.group(1).strip(), int(mi.group(2))
             found = rs.find_items(src, m, region, p, deep=(deep or k > 0 and False))
             if not found and k > 0:
                 found = rs.find_items(src, m, region, p, deep=True)
             found = [f for f in found if not self._in_cfg_test(src, m, f)]
+            if want is not None and want < len(found):
+                found = [found[want]]
             if len(found) != 1:
                 raise LostAnchor("%s: item `%s` found %d times (expected 1)" % (rel, sel, len(found)))
             it = found[0]
@@ -202,6 +208,8 @@ class Builder:
                 o.setdefault("replace", []).append((mm.group(1), mm.group(2)))
             elif p[0] == "external_body_consts":
                 o["external_body_consts"] = p[1].split()
+            elif p[0] == "pubfields":
+                o["pubfields"] = True
             elif p[0] == "noderive":
                 o["noderive"] = True
             elif p[0] == "derive":
@@ -223,7 +231,7 @@ class Builder:
         if o.get("derive"):
             self.emit("#[derive(%s)]\n" % ", ".join(o["derive"]), "unit")
         if kw in ("struct", "enum", "union"):
-            self.emit_plain_item(rel, src, m, it, strip_inner_attrs=True, replace=o.get("replace"))
+            self.emit_plain_item(rel, src, m, it, strip_inner_attrs=True, replace=o.get("replace"), pubfields=o.get("pubfields"))
         elif kw in ("const", "static", "type", "use", "mod"):
             self.emit_plain_item(rel, src, m, it)
         elif kw == "fn":
@@ -243,9 +251,31 @@ class Builder:
             return container_type(parent) + "::" + name
         return name
 
-    def emit_plain_item(self, rel, src, m, it, strip_inner_attrs=False, replace=None):
+    def emit_plain_item(self, rel, src, m, it, strip_inner_attrs=False, replace=None, pubfields=False):
         a, b = it.start, it.end
         edits = []
+        if pubfields and it.body_open is not None:
+            # private fields made `pub` so that contracts of pub fns may mention them (visibility only)
+            depth = 0
+            k = it.body_open + 1
+            start_of_field = True
+            while k < b - 1:
+                ch = m[k]
+                if ch in "([{<":
+                    depth += 1
+                elif ch in ")]}>":
+                    depth -= 1
+                elif ch == "," and depth == 0:
+                    start_of_field = True
+                elif start_of_field and depth == 0 and (ch.isalpha() or ch == "_"):
+                    fm = re.match(r"([A-Za-z_][A-Za-z0-9_]*)\s*:", m[k:b])
+                    if fm and not m[k:k + 3] == "pub":
+                        edits.append(Edit(k, k, [Seg("pub ", "repo", file=rel, line=rs.line_of(src, k))]))
+                        self.count("pubfields")
+                    start_of_field = False
+                    if m[k:k + 3] == "pub":
+                        start_of_field = False
+                k += 1
         for (old, new) in (replace or []):
             occ = [mm.start() for mm in re.finditer(re.escape(old), src[a:b])]
             if not occ:
@@ -422,6 +452,10 @@ class Builder:
         if it.body_open is None:
             self.emit_with_edits(rel, src, a, b, edits, fn=qual)
             return
+        ps0 = m.index("(", a)
+        mrecv = re.match(r"\(\s*mut\s+self\b", m[ps0:hdr_end])
+        if mrecv:
+            edits.append(Edit(ps0, ps0 + mrecv.end(), [Seg("(self", "repo", fn=qual)]))
         if external_body:
             edits.append(Edit(it.body_open + 1, b - 1, [Seg(" unimplemented!() ", "unit", fn=qual)]))
             self.emit_with_edits(rel, src, a, b, edits, fn=qual)
@@ -432,6 +466,12 @@ class Builder:
                               [Seg("\n        " + c.prologue + "\n", "contract", file="contracts.vc", fn=qual,
                                    clause="prologue")], order=-1))
         body = (it.body_open + 1, b - 1)
+        # ---- R13: `mut self` receiver -> `self` + `let mut vx_self = self;` and `self` renamed in the body
+        if mrecv:
+            edits.append(Edit(it.body_open + 1, it.body_open + 1, [Seg(" let mut vx_self = self;", "repo", fn=qual)], order=-2))
+            for mm in re.finditer(r"(?<![A-Za-z0-9_])self(?![A-Za-z0-9_])", m[body[0]:body[1]]):
+                edits.append(Edit(body[0] + mm.start(), body[0] + mm.end(), [Seg("vx_self", "repo", fn=qual)]))
+            self.count("R13")
         edits += self.generic_rewrites(src, m, body, qual, o)
         # ---- site rewrites
         if c:
@@ -634,7 +674,7 @@ class Builder:
                     name = "vx_%s%s" % (mm.group(1), "_char" if mm.group(2) else "")
                     edits.append(Edit(a + mm.start(), a + mm.start(1) + len(mm.group(1)), [Seg("." + name, "repo", fn=qual)]))
                     self.count("R5")
-                for mm in re.finditer(r"\.\s*(strip_suffix|eq_ignore_ascii_case|is_ascii)\s*\(", m[a:b]):
+                for mm in re.finditer(r"\.\s*(strip_suffix|eq_ignore_ascii_case|is_ascii|as_bytes)\s*\(", m[a:b]):
                     edits.append(Edit(a + mm.start(), a + mm.end(), [Seg(".vx_%s(" % mm.group(1), "repo", fn=qual)]))
                     self.count("R5")
                 for recv in rule[1:]:
